@@ -32,6 +32,7 @@ def _item_ok(v):
 
 class ByteArrayModel:
     """list-backed bytearray whose cells may hold symbolic bytes"""
+    __class__ = property(lambda self: _bytearray)  # C-level isinstance() / `match` class patterns see the represented type
 
     def __init__(self, source=0, *a):
         if type(source) is int:
@@ -115,6 +116,7 @@ class ByteArrayModel:
 
 class MemViewModel:
     """a window onto a ByteArrayModel (or immutable bytes): shares storage with its base"""
+    __class__ = property(lambda self: _memoryview)  # C-level isinstance() / `match` class patterns see the represented type
 
     def __init__(self, base, start=0, stop=None):
         if type(base) is MemViewModel:
